@@ -359,6 +359,70 @@ func init() {
 			}
 			check(md2, want, cls, cv)
 		}
+		// ---- heading levels through DOCX and ODT documents
+		hcount := func(md, title string) int {
+			for _, ln := range strings.Split(md, "\n") {
+				if strings.HasPrefix(ln, "#") && strings.HasSuffix(ln, " "+title) {
+					return len(ln) - len(strings.TrimLeft(ln, "#"))
+				}
+			}
+			return 0
+		}
+		var hb []wpBlock
+		for lvl := 1; lvl <= 9; lvl++ {
+			hb = append(hb, wpBlock{kind: 1, level: lvl, via: lvl % 3, inl: []wpInline{{0, fmt.Sprintf("Title%d", lvl)}}})
+			hb = append(hb, wpBlock{kind: 0, inl: []wpInline{{0, fmt.Sprintf("body text %d", lvl)}}})
+		}
+		docxPath := tmpFile(r, ".docx", writeZip(mkDOCXBlocks(hb, "", "")))
+		odtPath := tmpFile(r, ".odt", writeZip(mkODTBlocks(hb)))
+		dr, derr := docx.Open(docxPath)
+		or, oerr := odt.Open(odtPath)
+		r.Check(derr == nil && oerr == nil, "heading-docs-open", fmt.Sprintf("generated heading documents do not open: %v %v", derr, oerr), nil)
+		if derr == nil && oerr == nil {
+			for off := -2; off <= 7; off++ {
+				for mx := 0; mx <= 8; mx++ {
+					opts := rag.DefaultMarkdownOptions()
+					opts.HeadingLevelOffset = off
+					opts.MaxHeadingLevel = mx
+					opts.IncludeTableOfContents = mx%2 == 0
+					dmd, e1 := dr.MarkdownWithRAGOptions(docx.ExtractOptions{}, opts)
+					omd, e2 := or.MarkdownWithRAGOptions(odt.ExtractOptions{}, opts)
+					if e1 != nil || e2 != nil {
+						r.Check(false, "heading-markdown-error", fmt.Sprintf("%v %v", e1, e2), nil)
+						continue
+					}
+					for lvl := 1; lvl <= 9; lvl++ {
+						title := fmt.Sprintf("Title%d", lvl)
+						cv := L(I(5), I(lvl), I(off), I(mx))
+						gd, go_ := hcount(dmd, title), hcount(omd, title)
+						r.Case(cv, I(gd), "heading:docx", true)
+						r.Case(cv, I(go_), "heading:odt", true)
+						if mx >= 1 && mx <= 6 && lvl <= 6 {
+							want := lvl + off
+							if want < 1 {
+								want = 1
+							}
+							if want > mx {
+								want = mx
+							}
+							r.Check(gd == want, "heading-level:docx", fmt.Sprintf("DOCX level %d offset %d max %d rendered with %d '#'", lvl, off, mx, gd), cv)
+							r.Check(go_ == want, "heading-level:odt", fmt.Sprintf("ODT level %d offset %d max %d rendered with %d '#'", lvl, off, mx, go_), cv)
+						}
+						r.Check(gd >= 1 && gd <= 6 && go_ >= 1 && go_ <= 6, "heading-range", "a heading was rendered with fewer than 1 or more than 6 '#'", cv)
+					}
+					// no body text lost
+					okB := true
+					for lvl := 1; lvl <= 9; lvl++ {
+						if !strings.Contains(dmd, fmt.Sprintf("body text %d", lvl)) || !strings.Contains(omd, fmt.Sprintf("body text %d", lvl)) {
+							okB = false
+						}
+					}
+					r.Check(okB, "markdown-text-lost", "body text missing from the Markdown of a DOCX/ODT document", nil)
+				}
+			}
+			dr.Close()
+			or.Close()
+		}
 		// ---- heading levels
 		for lvl := -1; lvl <= 9; lvl++ {
 			for off := -2; off <= 7; off++ {
